@@ -3,6 +3,8 @@
 package backend
 
 import (
+	"github.com/kubewharf/kubebrain/pkg/backend/tso"
+	"github.com/kubewharf/kubebrain/pkg/zzmodel"
 	proto "github.com/kubewharf/kubebrain-client/api/v2rpc"
 
 	"github.com/kubewharf/kubebrain/pkg/zzverif"
@@ -75,5 +77,85 @@ func VerifC05Fanout() {
 			zzverif.Cover("some-filtered")
 		}
 	}
+	zzverif.Cover("done")
+}
+
+// VerifC05Publish: one write has been stored and its result slot filled, but the sequencer has not
+// looked at it yet; a watch registers (subscription, then cache read) while the sequencer
+// publishes that write (event cache and broadcast) and the fan-out forwards it — every
+// interleaving of the three within the delay bound. The watch is refused or delivers exactly the
+// reference sequence: the publication order must leave no window in which an event is in neither
+// source.
+func VerifC05Publish() {
+	ym := &zzmodel.YieldMetrics{}
+	w := &vWorld{s: zzmodel.NewStore(), g: zzmodel.NewGhost(), nkeys: 1, base: 5, dealt: 5}
+	w.b = vNewBackendFull(w.s, 5, zzverif.Param("cache", 8), func(t tso.TSO) tso.TSO { return t }, ym)
+	w.vWriteSeq(zzverif.Param("before", 1))
+	zzverif.WaitIdle()
+	s := zzverif.U64("S")
+	n := zzverif.Param("pending", 1)
+	zzverif.Assume(zzverif.And(s > 0, s <= w.dealt+uint64(n)+1))
+	w.vWriteSeq(n) // stored and notified; the sequencer runs only once this thread waits
+	var ch <-chan []*proto.Event
+	var werr error
+	done := make(chan struct{}, 1)
+	ym.Yield = zzverif.YieldAt
+	zzverif.ExploreSchedules(zzverif.Param("preempt", 2))
+	zzverif.Foreground("collectStorageWriteEvents")
+	zzverif.Foreground("Stream")
+	zzverif.Go("watch", func() {
+		ch, werr = w.b.Watch(vCtx(), "/r/", s)
+		done <- struct{}{}
+	})
+	<-done
+	zzverif.StopExploring()
+	ym.Yield = nil
+	zzverif.WaitIdle()
+	if werr != nil {
+		zzverif.Cover("refused")
+		return
+	}
+	got, closed := vDrainEvents(ch)
+	zzverif.Assert(!closed, "watch of a consumer that keeps up stays open")
+	w.checkEvents(got, 0, s, "/r/")
+	zzverif.Cover("done")
+}
+
+// VerifC05PublishHeld: the same window, forced without relying on the scheduler: the harness
+// holds the event cache's lock while the sequencer publishes one write (so the sequencer stops at
+// the cache insertion — before or after the broadcast, whichever the code does first), lets a
+// watch register and reach its cache read, then releases the lock; cache insertion and cache read
+// then run in either order. The watch is refused or delivers exactly the reference sequence.
+// (Natively the lock hand-over prefers the waiting reader, which is the order that matters.)
+func VerifC05PublishHeld() {
+	w := vNewWorld(1)
+	w.vWriteSeq(zzverif.Param("before", 1))
+	zzverif.WaitIdle()
+	s := zzverif.U64("S")
+	zzverif.Assume(zzverif.And(s > 0, s <= w.dealt+2))
+	w.b.watchCache.Lock()
+	w.vWriteSeq(1)
+	zzverif.WaitIdle() // the sequencer is now waiting for the cache's lock
+	var ch <-chan []*proto.Event
+	var werr error
+	done := make(chan struct{}, 1)
+	zzverif.ExploreSchedules(1)
+	zzverif.Foreground("collectStorageWriteEvents")
+	zzverif.Go("watch", func() {
+		ch, werr = w.b.Watch(vCtx(), "/r/", s)
+		done <- struct{}{}
+	})
+	zzverif.WaitIdle() // the watch is subscribed and waits for the cache's lock (or was served without the cache)
+	w.b.watchCache.Unlock()
+	<-done
+	zzverif.StopExploring()
+	zzverif.WaitIdle()
+	if werr != nil {
+		zzverif.Cover("refused")
+		return
+	}
+	got, closed := vDrainEvents(ch)
+	zzverif.Assert(!closed, "watch of a consumer that keeps up stays open")
+	w.checkEvents(got, 0, s, "/r/")
 	zzverif.Cover("done")
 }
